@@ -29,6 +29,14 @@ func vEmit(e vEvent) {
 	vTrace = append(vTrace, e)
 }
 
+// vArriveAfter blocks the calling client goroutine until k events have been emitted (or the command under test has
+// returned): client arrivals are placed relative to the steps of the command rather than by a free-running timer.
+var vCmdReturned bool
+
+func vArriveAfter(k int) {
+	vBlockUntil(func() bool { return len(vTrace) >= k || vCmdReturned })
+}
+
 // --- health probes ---
 
 const (
@@ -39,15 +47,18 @@ const (
 
 type vProbeOutcome struct {
 	kind    int
+	refused bool // symbolic alternative to kind: connection refused instead of a status
 	status  int
 	latency time.Duration
 }
 
 type vProbeScript struct {
 	outcomes []vProbeOutcome
-	next     int
-	// after the script is exhausted the last outcome repeats
+	next      int
+	parkAfter bool // after the script: park the probe loop (bounded exploration) instead of repeating the last outcome
 }
+
+var vProbeParked int
 
 var vProbeScripts = map[string]*vProbeScript{}
 var vProbeCount = map[string]int{}
@@ -80,16 +91,28 @@ func stubURLJoinPath(u *url.URL, elem ...string) *url.URL {
 func stubClientDo(c *http.Client, req *http.Request) (*http.Response, error) {
 	host := req.URL.Host
 	ctx := req.Context()
-	if ctx.Err() != nil {
-		return nil, &url.Error{Op: "Get", URL: host, Err: ctx.Err()}
-	}
 	sc := vProbeScripts[host]
 	idx := vProbeCount[host]
 	vProbeCount[host] = idx + 1
+	if sc != nil && sc.parkAfter && idx >= len(sc.outcomes) {
+		vProbeParked++
+		vDaemon()
+		select {}
+	}
+	if ctx.Err() != nil {
+		vEmit(vEvent{kind: "probe_begin", target: host, req: idx})
+		vEmit(vEvent{kind: "probe_end", target: host, req: idx, ok: false, note: "ctx"})
+		return nil, &url.Error{Op: "Get", URL: host, Err: ctx.Err()}
+	}
 	o := vProbeOutcome{kind: vProbeRefused}
 	if sc != nil && len(sc.outcomes) > 0 {
 		if idx < len(sc.outcomes) {
 			o = sc.outcomes[idx]
+		} else if sc.parkAfter {
+			// exploration bound: only the scripted probes are explored; the probe loop is parked afterwards
+			vProbeParked++
+			vDaemon()
+			select {}
 		} else {
 			o = sc.outcomes[len(sc.outcomes)-1]
 		}
@@ -106,7 +129,7 @@ func stubClientDo(c *http.Client, req *http.Request) (*http.Response, error) {
 		vEmit(vEvent{kind: "probe_end", target: host, req: idx, ok: false, note: "ctx"})
 		return nil, &url.Error{Op: "Get", URL: host, Err: ctx.Err()}
 	}
-	if o.kind == vProbeRefused {
+	if o.kind == vProbeRefused || o.refused {
 		vEmit(vEvent{kind: "probe_end", target: host, req: idx, ok: false})
 		return nil, &url.Error{Op: "Get", URL: host, Err: errVRefused}
 	}
@@ -208,4 +231,26 @@ func stubInstallServiceTraced(r *Router, s *Service) error {
 	err := r.installService(s)
 	vEmit(vEvent{kind: "swap", ok: err == nil})
 	return err
+}
+
+// vTraceString renders the event trace (for counterexample reports).
+func vTraceString() string {
+	s := ""
+	for _, e := range vTrace {
+		s += e.kind
+		if e.target != "" {
+			s += "(" + e.target + ")"
+		}
+		if e.kind == "arrive" || e.kind == "respond" || e.kind == "forward_begin" || e.kind == "forward_end" {
+			s += "#" + vItoa(e.req)
+		}
+		if e.kind == "respond" && vIsConcrete(e.status) {
+			s += "=" + vItoa(e.status)
+		}
+		if e.note != "" && e.kind != "respond" {
+			s += "[" + e.note + "]"
+		}
+		s += " "
+	}
+	return s
 }
